@@ -15,8 +15,10 @@ from mc.refmodels import twod_ledger as TL
 
 LEVEL = "model_checking"
 
-A = numpy.array([[1, 2], [3, 5]], dtype=complex)
-B = numpy.array([[16, 32], [64, 128]], dtype=complex) * (1 + 1j)
+# the two frequency axes have DIFFERENT lengths (2 and 3): index order matters
+A = numpy.array([[1, 2, 9], [3, 5, 11]], dtype=complex)
+B = numpy.array([[16, 32, 256], [64, 128, 512]], dtype=complex) * (1 + 1j)
+SHAPE = (2, 3)
 ARR = {"A": A, "B": B}
 
 
@@ -69,6 +71,12 @@ def alphabet(tier):
         add("signals", sig[2], None, "B")
     for r in TL.RESOLUTIONS + ["bogus"]:
         ops.append(["setres", r])
+    # a spectrum derived from the response is the user's own object: scaling it, normalising it
+    # or adding to it through its API is not an addition to the response
+    for how in (("devide_by", "add_data") if tier == "quick"
+                else ("devide_by", "normalize2", "add_data")):
+        for d in ([tot, sig[0]] if tier == "quick" else [tot, sig[0], sig[1]]):
+            ops.append(["derive", d, how])
     return ops
 
 
@@ -120,6 +128,27 @@ def _apply(obj, led, op, viol, check):
     sig, tot = _names()
     a_before = {k: v.copy() for k, v in ARR.items()}
     before = _snapshot(obj)
+    if op[0] == "derive":
+        _, d, how = op
+        try:
+            sp = obj.get_TwoDSpectrum(d)
+        except Exception:
+            return                      # an inexpressible / empty view: nothing to derive
+        try:
+            if how == "devide_by":
+                sp.devide_by(2.0)
+            elif how == "normalize2":
+                sp.normalize2()
+            else:
+                sp.add_data(numpy.ones(SHAPE, dtype=complex))
+        except Exception:
+            pass
+        if _snapshot(obj) != before:
+            viol.append(("derived-spectrum-operation-changed-the-response/%s/at-%s"
+                         % (how, before[0]),
+                         "%s on the TwoDSpectrum returned by get_TwoDSpectrum(%r) changed the "
+                         "stored data of the response" % (how, d), None))
+        return
     if op[0] == "add":
         _, res, d, t, x = op
         adm = led.admissible_add(obj.storage_resolution, obj.storage_initialized, res, d, t)
@@ -200,7 +229,7 @@ def _check_views(obj, led, viol):
     sig, tot = _names()
     if not obj.storage_initialized or not led.entries:
         return 0
-    shape = (2, 2)
+    shape = SHAPE
     res = obj.storage_resolution
     n = 0
     stored0 = _snapshot(obj)
@@ -320,8 +349,8 @@ def execute(hist):
     qr = isolation.qr()
     sig, tot = _names()
     obj = qr.TwoDResponse()
-    obj.set_axis_1(qr.FrequencyAxis(0.0, 2, 1.0))
-    obj.set_axis_3(qr.FrequencyAxis(0.0, 2, 1.0))
+    obj.set_axis_1(qr.FrequencyAxis(0.0, SHAPE[0], 1.0))
+    obj.set_axis_3(qr.FrequencyAxis(0.0, SHAPE[1], 1.0))
     led = TL.Ledger(sig, tot)
     viol = []
     for i, op in enumerate(hist):
